@@ -107,6 +107,9 @@ func (ctx Ctx) coqTypeOfType(n ast.Node, t types.Type) coq.Type {
 			ctx.dep.addDep(info.name)
 			return coq.StructName(info.name)
 		}
+		if t.Obj().Pkg().Path() == ctx.pkgPath {
+			ctx.dep.addDep(t.Obj().Name())
+		}
 		return coq.TypeIdent(ctx.qualifiedName(t.Obj()))
 	case *types.Slice:
 		return coq.SliceType{Value: ctx.coqTypeOfType(n, t.Elem())}
